@@ -29,6 +29,7 @@ import ast
 import os
 
 from .. import translate
+from . import normalize
 
 REL = "fairlearn/metrics/_disaggregated_result.py"
 
@@ -51,6 +52,33 @@ class T:
     def key(self):
         """the lifted term itself (the layout bookkeeping is not part of it)"""
         return (self.op, tuple(a.key() if isinstance(a, T) else a for a in self.args), self.level)
+
+
+class P:
+    """the (never rebound) parameter `name` of the interpreted method, possibly reached through a local alias"""
+
+    def __init__(self, name):
+        self.name = name
+
+
+class Grouped:
+    """`X.groupby(level=control_feature_names)` not yet reduced"""
+
+    def __init__(self, x):
+        self.x = x
+
+
+def bind_call(call, names, what):
+    """bind the arguments of `call` against the positional-or-keyword parameter list `names` -> {name: node}
+    (refuses *args / **kwargs, unknown or duplicate names)"""
+    if len(call.args) > len(names) or any(isinstance(a, ast.Starred) for a in call.args):
+        raise U(f"{what}: cannot bind the arguments of `{ast.unparse(call)[:60]}`")
+    out = dict(zip(names, call.args))
+    for k in call.keywords:
+        if k.arg is None or k.arg not in names or k.arg in out:
+            raise U(f"{what}: cannot bind the arguments of `{ast.unparse(call)[:60]}`")
+        out[k.arg] = k.value
+    return out
 
 
 LEAVES = {"grouping", "coerced", "bygroup", "overall"}
@@ -95,16 +123,31 @@ def transform_lambda(lam):
 
 
 class Interp:
-    def __init__(self, world, what):
+    def __init__(self, world, what, params=()):
         self.w = world      # dict: cf (bool), method (str|None), errors (str|None)
         self.what = what
-        self.env = {}
+        self.params = set(params)
+        self.env = {p: P(p) for p in params}
+
+    def is_param(self, e, name):
+        """`e` is the parameter `name`, or a local alias of it"""
+        if not isinstance(e, ast.Name):
+            return False
+        v = self.env.get(e.id)
+        return isinstance(v, P) and v.name == name
+
+    def param_name(self, e):
+        v = self.env.get(e.id) if isinstance(e, ast.Name) else None
+        return v.name if isinstance(v, P) else None
 
     # ------------------------------------------------------------------ conditions
     def cond(self, t):
         w = self.w
-        if isinstance(t, ast.Compare) and len(t.ops) == 1 and isinstance(t.left, ast.Name):
-            n, op, c = t.left.id, t.ops[0], t.comparators[0]
+        if isinstance(t, ast.Compare) and len(t.ops) == 1 and isinstance(t.left, ast.Constant) \
+                and isinstance(t.ops[0], (ast.Eq, ast.NotEq)) and isinstance(t.comparators[0], ast.Name):
+            t = ast.Compare(left=t.comparators[0], ops=t.ops, comparators=[t.left])     # "c" == name  ->  name == "c"
+        if isinstance(t, ast.Compare) and len(t.ops) == 1 and self.param_name(t.left) is not None:
+            n, op, c = self.param_name(t.left), t.ops[0], t.comparators[0]
             if n in ("method", "errors") and isinstance(op, (ast.Eq, ast.NotEq)) and isinstance(c, ast.Constant) \
                     and isinstance(c.value, str):
                 if w.get(n) is None:
@@ -116,7 +159,7 @@ class Interp:
                     return not w["cf"]
                 if isinstance(op, ast.IsNot):
                     return w["cf"]
-        if is_name(t, "control_feature_names"):
+        if self.is_param(t, "control_feature_names"):
             return w["cf"]
         if isinstance(t, ast.UnaryOp) and isinstance(t.op, ast.Not):
             return not self.cond(t.operand)
@@ -144,8 +187,8 @@ class Interp:
         if isinstance(s, ast.Assert):
             return None
         if isinstance(s, ast.FunctionDef):
-            if s.name != "ratio_sub_one":
-                raise U(f"{self.what}: unexpected nested function {s.name}")
+            if s.name != "ratio_sub_one" or s.name in self.env:
+                raise U(f"{self.what}: unexpected (or repeated) nested function {s.name}")
             self.env[s.name] = "fn:ratio_sub_one"
             return None
         if isinstance(s, ast.If):
@@ -162,6 +205,8 @@ class Interp:
                 raise U(f"{self.what}: try/else/finally")
             return self.block(s.body)
         if isinstance(s, ast.Assign) and len(s.targets) == 1 and isinstance(s.targets[0], ast.Name):
+            if s.targets[0].id in self.params or s.targets[0].id == "self":
+                raise U(f"{self.what}: the parameter `{s.targets[0].id}` is rebound")
             self.env[s.targets[0].id] = self.expr(s.value)
             return None
         if isinstance(s, ast.Return):
@@ -174,13 +219,24 @@ class Interp:
     def grouping_arg(self, e):
         if isinstance(e, ast.Constant) and e.value in ("min", "max"):
             return "." + e.value
-        if is_name(e, "grouping_function") and self.what == "apply_grouping":
+        if self.is_param(e, "grouping_function") and self.what == "apply_grouping":
             return "g"
         raise U(f"{self.what}: grouping function `{ast.unparse(e)}`")
 
     def is_cf_level_kw(self, call):
         return (not call.args and len(call.keywords) == 1 and call.keywords[0].arg == "level"
-                and is_name(call.keywords[0].value, "control_feature_names"))
+                and self.is_param(call.keywords[0].value, "control_feature_names"))
+
+    def agg_function(self, call, grouped):
+        """the grouping function of `.agg(func[, axis=0])` (DataFrame / Series: axis 0 is the default) resp. of
+        `<groupby>.agg(func)`; positional or keyword"""
+        b = bind_call(call, ["func"] if grouped else ["func", "axis"], self.what)
+        if "func" not in b:
+            raise U(f"{self.what}: unsupported agg `{ast.unparse(call)[:60]}`")
+        ax = b.get("axis")
+        if ax is not None and not (isinstance(ax, ast.Constant) and ax.value == 0 and not isinstance(ax.value, bool)):
+            raise U(f"{self.what}: unsupported agg `{ast.unparse(call)[:60]}`")
+        return self.grouping_arg(b["func"])
 
     def reduce(self, g, x, grouped):
         if not isinstance(x, T):
@@ -208,7 +264,7 @@ class Interp:
         if isinstance(e, ast.Name):
             if e.id not in self.env:
                 raise U(f"{what}: unknown name `{e.id}`")
-            return self.env[e.id]
+            return self.env[e.id]       # a T, a Grouped, None, "fn:..." or a P (alias of a parameter)
         if is_self_attr(e, "overall"):
             return T("overall", [], "S")
         if is_self_attr(e, "by_group"):
@@ -233,10 +289,11 @@ class Interp:
             if attr == "apply_grouping" and is_name(recv, "self"):
                 if what == "apply_grouping":
                     raise U("apply_grouping calls itself")
-                if not (len(e.args) == 2 and is_name(e.args[1], "control_feature_names") and len(e.keywords) == 1
-                        and e.keywords[0].arg == "errors" and is_name(e.keywords[0].value, "errors")):
+                b = bind_call(e, ["grouping_function", "control_feature_names", "errors"], what)
+                if not (len(b) == 3 and self.is_param(b["control_feature_names"], "control_feature_names")
+                        and self.is_param(b["errors"], "errors")):
                     raise U(f"{what}: apply_grouping is not called with (g, control_feature_names, errors=errors)")
-                return T("grouping", [self.grouping_arg(e.args[0])], "S")
+                return T("grouping", [self.grouping_arg(b["grouping_function"])], "S")
             if attr == "apply" and len(e.args) == 1 and not e.keywords and isinstance(e.args[0], ast.Lambda):
                 lam = e.args[0]
                 if is_coerce_lambda(lam):
@@ -261,31 +318,33 @@ class Interp:
                 x = self.expr(recv)
                 if not isinstance(x, T):
                     raise U(f"{what}: unstack of a non-frame")
-                if self.is_cf_level_kw(e):
+                lv = bind_call(e, ["level"], what).get("level")
+                if lv is not None and self.is_param(lv, "control_feature_names"):
                     if not self.w["cf"] or x.layout != "n":
                         raise U(f"{what}: unstack(level=control_feature_names) in an unexpected place")
                     return T(x.op, x.args, x.level, "u")
-                if len(e.args) == 1 and isinstance(e.args[0], ast.Constant) and e.args[0].value == 0 and not e.keywords:
+                if isinstance(lv, ast.Constant) and lv.value == 0 and not isinstance(lv.value, bool):
                     if x.layout != "m":
                         raise U(f"{what}: unstack(0) of a value that is not a column-wise reduction of an unstacked frame")
                     return T(x.op, x.args, x.level, "n")
                 raise U(f"{what}: unsupported unstack `{ast.unparse(e)[:60]}`")
-            grouped = (isinstance(recv, ast.Call) and isinstance(recv.func, ast.Attribute) and recv.func.attr == "groupby")
+            if attr == "groupby":
+                if not self.is_cf_level_kw(e):
+                    raise U(f"{what}: groupby is not by level=control_feature_names")
+                x = self.expr(recv)
+                if not isinstance(x, T):
+                    raise U(f"{what}: groupby of a non-frame")
+                return Grouped(x)
             if attr in ("min", "max") and not e.args and not e.keywords:
-                if grouped:
-                    if not self.is_cf_level_kw(recv):
-                        raise U(f"{what}: groupby is not by level=control_feature_names")
-                    return self.reduce("." + attr, self.expr(recv.func.value), True)
-                return self.reduce("." + attr, self.expr(recv), False)
+                x = self.expr(recv)
+                if isinstance(x, Grouped):
+                    return self.reduce("." + attr, x.x, True)
+                return self.reduce("." + attr, x, False)
             if attr == "agg":
-                if grouped:
-                    if not (len(e.args) == 1 and not e.keywords and self.is_cf_level_kw(recv)):
-                        raise U(f"{what}: unsupported grouped agg `{ast.unparse(e)[:60]}`")
-                    return self.reduce(self.grouping_arg(e.args[0]), self.expr(recv.func.value), True)
-                if not (len(e.args) == 1 and len(e.keywords) == 1 and e.keywords[0].arg == "axis"
-                        and isinstance(e.keywords[0].value, ast.Constant) and e.keywords[0].value.value == 0):
-                    raise U(f"{what}: unsupported agg `{ast.unparse(e)[:60]}`")
-                return self.reduce(self.grouping_arg(e.args[0]), self.expr(recv), False)
+                x = self.expr(recv)
+                if isinstance(x, Grouped):
+                    return self.reduce(self.agg_function(e, True), x.x, True)
+                return self.reduce(self.agg_function(e, False), x, False)
         raise U(f"{what}: unsupported expression `{ast.unparse(e)[:80]}`")
 
 
@@ -331,8 +390,13 @@ def do_block(term, ind):
     return "do\n" + "".join(f"{pad}let {n} ← {src}\n" for n, src in binds) + f"{pad}pure ({body})"
 
 
-def run_world(fn, what, world):
-    it = Interp(world, what)
+MODULE_FNS = "<module-level functions>"
+
+
+def run_world(fn, what, world, module_fns=()):
+    it = Interp(world, what, [a.arg for a in fn.args.args if a.arg != "self"])
+    if "ratio_sub_one" in module_fns:       # hoisted out of `ratio` under the same name (lifters/aggregate.py lifts its body)
+        it.env["ratio_sub_one"] = "fn:ratio_sub_one"
     try:
         r = it.block(fn.body)
     except Raised:
@@ -345,10 +409,10 @@ def run_world(fn, what, world):
     return r
 
 
-def branch(fn, what, fixed):
+def branch(fn, what, fixed, module_fns=()):
     """lift one (method|errors) branch in both control-feature worlds; merge when the terms agree"""
-    a = run_world(fn, what, dict(fixed, cf=False))
-    b = run_world(fn, what, dict(fixed, cf=True))
+    a = run_world(fn, what, dict(fixed, cf=False), module_fns)
+    b = run_world(fn, what, dict(fixed, cf=True), module_fns)
     if a.key() == b.key():
         return do_block(a, 4), False
     return (f"if t.ncf = 0 then {do_block(a, 6)}\n    else {do_block(b, 6)}"), True
@@ -362,7 +426,7 @@ def check_sig(fn, what, names):
 
 def parse_methods(repo):
     src = open(os.path.join(repo, REL)).read()
-    tree = ast.parse(src)
+    tree = normalize.parse(src)
     cls = next((n for n in tree.body if isinstance(n, ast.ClassDef) and n.name == "DisaggregatedResult"), None)
     if cls is None:
         raise U("class DisaggregatedResult not found")
@@ -370,6 +434,8 @@ def parse_methods(repo):
     for nm in ("apply_grouping", "difference", "ratio"):
         if nm not in meth:
             raise U(f"{nm} not found")
+    top = [n.name for n in tree.body if isinstance(n, ast.FunctionDef)]
+    meth[MODULE_FNS] = {n for n in top if top.count(n) == 1}
     check_sig(meth["apply_grouping"], "apply_grouping", ["self", "grouping_function", "control_feature_names", "errors"])
     check_sig(meth["difference"], "difference", ["self", "control_feature_names", "method", "errors"])
     check_sig(meth["ratio"], "ratio", ["self", "control_feature_names", "method", "errors"])
@@ -384,7 +450,7 @@ def world_terms(repo):
     for nm in ("difference", "ratio"):
         for m in ("between_groups", "to_overall"):
             for cf in (False, True):
-                out[nm, m, cf] = run_world(meth[nm], nm, {"method": m, "errors": None, "cf": cf})
+                out[nm, m, cf] = run_world(meth[nm], nm, {"method": m, "errors": None, "cf": cf}, meth[MODULE_FNS])
     return out
 
 
@@ -398,7 +464,7 @@ def lift(repo):
     out = {}
     for nm in ("difference", "ratio"):
         for m in ("between_groups", "to_overall"):
-            out[nm, m], split[f"{nm}/{m}"] = branch(meth[nm], nm, {"method": m, "errors": None})
+            out[nm, m], split[f"{nm}/{m}"] = branch(meth[nm], nm, {"method": m, "errors": None}, meth[MODULE_FNS])
     lean = f"""-- GENERATED by harness/lifters/aggregate_gen.py from {REL}; do not edit.
 import FairModel.Model.AggregatePrim
 
